@@ -269,8 +269,12 @@ def add_subkey():
         r.hook('pgpy.packet.fields.EdDSAPriv', '__call__', lambda ex, st, c, a: [(st, E.VObj('pgpy.packet.fields.EdDSAPriv', 'fresh-empty-material'))])
         r.hook('pgpy.packet.types.VersionedPacket', '__init__', scn.mconst(E.VNone()))
         r.hook('pgpy.packet.types.Packet', '__init__', scn.mconst(E.VNone()))
+        # this key's own packet: another algorithm, another creation time, other material (nothing of it belongs in the new subkey packet)
+        r.set('key', '_key', E.VObj(PRIM, 'mypkt'))
+        MINE = {'pkalg': E.VInt(1, enum='pgpy.constants.PubKeyAlgorithm'), 'created': E.VExt('datetime', ('of-this-key',)),
+                'keymaterial': E.VObj('pgpy.packet.fields.RSAPriv', 'my-material')}
         for f, val in (('pkalg', ALG), ('created', CREATED), ('keymaterial', MATERIAL)):
-            r.hook(PRIM, f, (lambda val: lambda ex, st, o, a: [(st, val)])(val))
+            r.hook(PRIM, f, (lambda f, val: lambda ex, st, o, a: [(st, val if o.ref == 'oldpkt' else MINE[f])])(f, val))
         r.hook(SUBP, '__call__', lambda ex, st, c, a: [(st, E.VObj(SUBP, 'subpkt'))])
         for f in ('pkalg', 'created', 'keymaterial'):
             pass
@@ -322,7 +326,7 @@ def add_subkey():
                                       and s.heap.get(('subpkt', 'keymaterial')) is MATERIAL),
                            z3.BoolVal(pk is oldpkt)))
         return r.result()
-    return Scenario(label, KEY + '.add_subkey', gen, props=('C15', 'C16'))
+    return Scenario(label, KEY + '.add_subkey', gen, props=('C15', 'C16', 'C18'))
 
 
 _base_scn_au = scenarios
